@@ -692,6 +692,29 @@ class ShapeInterp:
                 return self.view(attr, d)
             if isinstance(recv, tuple) and recv[0] == "view" and attr == "data":
                 return self.view(recv[1], e.args[0] if e.args else ast.Constant(True))
+            if attr == "format" and isinstance(recv, Str) and all(x[0] == "lit" for x in recv.p):
+                # "..{}..".format(a, b): the same text as the f-string with the arguments in place
+                import string
+                tpl = "".join(x[1] for x in recv.p)
+                r_, auto = Str(), 0
+                for lit_, field, spec, conv in string.Formatter().parse(tpl):
+                    if lit_:
+                        r_ = r_ + lit(lit_)
+                    if field is None:
+                        continue
+                    if spec or conv:
+                        raise AnalysisError(f"shape interpreter: format spec at {fi.loc(e)}")
+                    if field == "":
+                        a_ = e.args[auto] if auto < len(e.args) else None
+                        auto += 1
+                    elif field.isdigit():
+                        a_ = e.args[int(field)] if int(field) < len(e.args) else None
+                    else:
+                        a_ = next((k.value for k in e.keywords if k.arg == field), None)
+                    if a_ is None:
+                        raise AnalysisError(f"shape interpreter: format field `{field}` at {fi.loc(e)}")
+                    r_ = r_ + self.tostr(self.ev(fi, a_, env), fi, e)
+                return r_
             if attr == "join" and isinstance(recv, Str):
                 a = args[0]
                 if isinstance(a, SymSeq):
